@@ -20,7 +20,7 @@ ASSUMPTIONS = [
     "the Gallina model mirrors src/graph_impl/mod.rs (checked by the differential run on generated histories only)",
     "u16/u32/usize histories stay below the index limit, where behaviour does not depend on the width; only u8 runs at its limit",
     "retain_*/filter_map closures are weight predicates (w mod m != r); arbitrary closures are a model parameter",
-    "first_edge/next_edge/WalkNeighbors expose the link order; they are compared with the model, not judged by the oracle",
+    "first_edge/next_edge/WalkNeighbors expose the link order: compared with the model and judged by the oracle against 'most recently added first'",
 ]
 SCOPE = "see Props/C01.v"
 
@@ -335,6 +335,37 @@ def oracle(stream, header, ops, obs):
                 want = [(i, x, y, e[2]) for i, e in enumerate(sp.edges) if sp.joins(e, x, y)]
                 if got is None or Counter(got) != Counter(want):
                     return bad(k, "graph-edges-connecting-wrong", want)
+        elif name in ("first_edge", "next_edge", "walker"):
+            # the raw adjacency lists: list 0 of a node = the edges it is the source of, list 1 = those it is the target of,
+            # each most recently added first
+            kdir = 0 if a[1] == 0 else 1       # harness: 0 = Outgoing
+            def lst(x, kd):
+                return [i for i, e in sorted(enumerate(sp.edges), key=lambda p: -p[1][3]) if e[kd] == x]
+            if name == "first_edge":
+                l = lst(a[0], kdir) if a[0] < len(sp.nodes) else []
+                want = "some %d" % l[0] if l else "none"
+                if first != want:
+                    return bad(k, "graph-first-edge-is-not-the-head-of-the-adjacency-list", want)
+            elif name == "next_edge":
+                want = "none"
+                if a[0] < len(sp.edges):
+                    l = lst(sp.edges[a[0]][kdir], kdir)
+                    pos = l.index(a[0])
+                    if pos + 1 < len(l):
+                        want = "some %d" % l[pos + 1]
+                if first != want:
+                    return bad(k, "graph-next-edge-does-not-follow-the-adjacency-list", want)
+            else:
+                got = chunks(nums(first), 2) if first.startswith("walk") else None
+                x = a[0]
+                if x >= len(sp.nodes):
+                    want = []
+                elif sp.d:
+                    want = [(i, sp.edges[i][1 - kdir]) for i in lst(x, kdir)]
+                else:
+                    want = [(i, sp.edges[i][1]) for i in lst(x, 0)] + [(i, sp.edges[i][0]) for i in lst(x, 1) if sp.edges[i][0] != x]
+                if got is None or (got != want if sp.d else Counter(got) != Counter(want)):
+                    return bad(k, "graph-walker-does-not-enumerate-the-adjacency-list", want)
         if name in MUT:
             e = check_battery(k, g[1:], loose)
             if e:
